@@ -2,45 +2,540 @@
 from __future__ import annotations
 
 import ast
+import copy
 from pathlib import Path
 
 from .common import HEADER, body_no_doc, fail, find_func, int_const, parse
 
 
+# ------------------------------------------------------------------------------------------ get_dtype
+# get_dtype is read as a FUNCTION from an integer resolution to {np.dtype(np.uintN), raise}: a small symbolic executor
+# runs the body over SETS of integers (finite unions of intervals, bounds may be infinite).  Every comparison of the
+# resolution with an integer constant splits the current set; the bands of the table are the sets on which a
+# `return np.dtype(np.uintN)` is reached.  The table therefore does not depend on how the decision is written:
+#   if/elif/else chains, guard clauses / early returns, inverted conditions, `a <= x <= b` / `a <= x and x <= b` /
+#   `not (...)` / `x in (..)` / `x in range(..)`, conditional expressions, `match` on literals (with guards),
+#   loops over a constant tuple / dict literal (unrolled; `break` / `continue` / `else`), constants and tables at module
+#   level or local (a Name is resolved to its single assignment), single-assignment locals, named intermediate
+#   results, private helper functions of the same module (inlined), lookup `TABLE[x]` in a constant dict,
+#   docstrings / comments / logging calls / message text are not read.
+# Anything else (arithmetic on the resolution other than +- a constant, while, try, attribute state, ...) fails closed.
+
+_INF = float("inf")
+_FULL = [(-_INF, _INF)]
+
+
+def _norm(a):
+    out = []
+    for lo, hi in sorted(x for x in a if x[0] <= x[1]):
+        if out and lo <= out[-1][1] + 1:
+            out[-1] = (out[-1][0], max(out[-1][1], hi))
+        else:
+            out.append((lo, hi))
+    return out
+
+
+def _compl(a):
+    out, cur = [], -_INF
+    for lo, hi in _norm(a):
+        if lo > cur:
+            out.append((cur, lo - 1))
+        cur = hi + 1
+    if cur < _INF or not a:
+        out.append((cur, _INF))
+    return [x for x in out if x[0] <= x[1] and x[0] < _INF and x[1] > -_INF]
+
+
+def _inter(a, b):
+    return _norm([(max(l1, l2), min(h1, h2)) for l1, h1 in a for l2, h2 in b])
+
+
+def _diff(a, b):
+    return _inter(a, _compl(b))
+
+
+_UNSIGNED = {"uint8": 8, "uint16": 16, "uint32": 32, "uint64": 64}
+_LOGGERS = ("logging", "logger", "_logger", "log", "_log", "LOGGER", "warnings")
+
+
+class _Sym:
+    """Symbolic execution of integer-decision code over one integer variable."""
+
+    def __init__(self, tree):
+        self.tree = tree
+        self.funcs = {n.name: n for n in tree.body if isinstance(n, ast.FunctionDef)}
+        self.modvals = {}
+        for n in tree.body:
+            if isinstance(n, ast.Assign) and len(n.targets) == 1 and isinstance(n.targets[0], ast.Name):
+                self.modvals.setdefault(n.targets[0].id, []).append(n.value)
+            elif isinstance(n, ast.AnnAssign) and isinstance(n.target, ast.Name):
+                self.modvals.setdefault(n.target.id, []).append(n.value)
+            elif isinstance(n, ast.Assign) and len(n.targets) == 1 and isinstance(n.targets[0], ast.Tuple) \
+                    and isinstance(n.value, ast.Tuple) and len(n.value.elts) == len(n.targets[0].elts):
+                for t, v in zip(n.targets[0].elts, n.value.elts):
+                    if isinstance(t, ast.Name):
+                        self.modvals.setdefault(t.id, []).append(v)
+            elif isinstance(n, (ast.Assign, ast.AnnAssign, ast.For, ast.With, ast.Delete)):
+                for m in ast.walk(n):                        # any other module-level binding: not resolved
+                    if isinstance(m, ast.Name) and isinstance(m.ctx, (ast.Store, ast.Del)):
+                        self.modvals.setdefault(m.id, []).append(None)
+            elif isinstance(n, ast.AugAssign) and isinstance(n.target, ast.Name):
+                self.modvals.setdefault(n.target.id, []).append(None)
+        for n in ast.walk(tree):
+            if isinstance(n, ast.Global):                    # rebound from inside a function: not a constant
+                for g in n.names:
+                    self.modvals.setdefault(g, []).append(None)
+        self.depth = 0
+
+    # ---- expressions: list of (set, value); the sets partition S
+    def one(self, node, env, S):
+        r = self.ev(node, env, S)
+        if len(r) != 1:
+            fail(node, "value depends on the resolution where a single value is needed")
+        return r[0][1]
+
+    def ev(self, node, env, S):
+        if isinstance(node, ast.Constant):
+            v = node.value
+            if isinstance(v, bool):
+                return [(S, ("bool", v))]
+            if isinstance(v, int):
+                return [(S, ("int", v))]
+            if v is None:
+                return [(S, ("none",))]
+            if isinstance(v, str):
+                return [(S, ("str", v))]
+            return [(S, ("opaque", repr(v)))]
+        if isinstance(node, ast.Name):
+            if node.id in env:
+                return [(S, env[node.id])]
+            vs = self.modvals.get(node.id)
+            if vs is not None:
+                if len(vs) != 1 or vs[0] is None:
+                    fail(node, "module-level name is not bound exactly once")
+                return [(S, self.one(vs[0], {}, S))]
+            return [(S, ("opaque", node.id))]
+        if isinstance(node, ast.Attribute):
+            txt = ast.unparse(node)
+            for pre in ("np.", "numpy."):
+                if txt.startswith(pre) and txt[len(pre):] in _UNSIGNED:
+                    return [(S, ("ty", _UNSIGNED[txt[len(pre):]]))]
+            return [(S, ("opaque", txt))]
+        if isinstance(node, (ast.Tuple, ast.List)):
+            return [(S, ("tuple", [self.one(e, env, S) for e in node.elts]))]
+        if isinstance(node, ast.Dict):
+            if any(k is None for k in node.keys):
+                fail(node, "dict unpacking")
+            return [(S, ("dict", [(self.one(k, env, S), self.one(v, env, S)) for k, v in zip(node.keys, node.values)]))]
+        if isinstance(node, ast.UnaryOp):
+            if isinstance(node.op, ast.Not):
+                return [(s, ("bool", not b)) for s, b in self.cond(node.operand, env, S)]
+            v = self.one(node.operand, env, S)
+            if v[0] == "int" and isinstance(node.op, (ast.USub, ast.UAdd)):
+                return [(S, ("int", -v[1] if isinstance(node.op, ast.USub) else v[1]))]
+            fail(node, "unary operation")
+        if isinstance(node, ast.BinOp):
+            a, b = self.one(node.left, env, S), self.one(node.right, env, S)
+            if a[0] == "int" and b[0] == "int":
+                try:
+                    if isinstance(node.op, ast.Add):
+                        return [(S, ("int", a[1] + b[1]))]
+                    if isinstance(node.op, ast.Sub):
+                        return [(S, ("int", a[1] - b[1]))]
+                    if isinstance(node.op, ast.Mult):
+                        return [(S, ("int", a[1] * b[1]))]
+                    if isinstance(node.op, ast.Pow) and 0 <= b[1] <= 64:
+                        return [(S, ("int", a[1] ** b[1]))]
+                    if isinstance(node.op, ast.FloorDiv) and b[1] != 0:
+                        return [(S, ("int", a[1] // b[1]))]
+                except Exception:
+                    pass
+            if a[0] == "x" and b[0] == "int" and isinstance(node.op, (ast.Add, ast.Sub)):
+                return [(S, ("x", a[1] + (b[1] if isinstance(node.op, ast.Add) else -b[1])))]
+            if a[0] == "int" and b[0] == "x" and isinstance(node.op, ast.Add):
+                return [(S, ("x", a[1] + b[1]))]
+            fail(node, "arithmetic the translator does not follow")
+        if isinstance(node, (ast.Compare, ast.BoolOp)):
+            return [(s, ("bool", b)) for s, b in self.cond(node, env, S)]
+        if isinstance(node, ast.IfExp):
+            out = []
+            for s, b in self.cond(node.test, env, S):
+                out += self.ev(node.body if b else node.orelse, env, s)
+            return out
+        if isinstance(node, ast.Subscript):
+            base, key = self.one(node.value, env, S), self.one(node.slice, env, S)
+            if base[0] == "tuple" and key[0] == "int" and -len(base[1]) <= key[1] < len(base[1]):
+                return [(S, base[1][key[1]])]
+            if base[0] == "dict" and all(k[0] == "int" for k, _ in base[1]):
+                if key[0] == "int":
+                    hit = [v for k, v in base[1] if k[1] == key[1]]
+                    return [(S, hit[-1])] if hit else [(S, ("raise",))]
+                if key[0] == "x":
+                    out, rest = [], S
+                    for k, v in reversed(base[1]):          # a later duplicate key wins
+                        s = _inter(rest, [(k[1] - key[1], k[1] - key[1])])
+                        if s:
+                            out.append((s, v))
+                            rest = _diff(rest, s)
+                    if rest:
+                        out.append((rest, ("raise",)))
+                    return out
+            fail(node, "subscript the translator does not follow")
+        if isinstance(node, ast.Call):
+            return self.call(node, env, S)
+        fail(node, "expression the translator does not follow")
+
+    def call(self, node, env, S):
+        fn = ast.unparse(node.func)
+        if any(isinstance(a, ast.Starred) for a in node.args) or any(k.arg is None for k in node.keywords):
+            fail(node, "starred call")
+        if fn in ("np.dtype", "numpy.dtype") and len(node.args) == 1 and not node.keywords:
+            out = []
+            for s, v in self.ev(node.args[0], env, S):
+                if v[0] in ("ty", "dt"):
+                    out.append((s, ("dt", v[1])))
+                elif v[0] == "str" and v[1] in _UNSIGNED:
+                    out.append((s, ("dt", _UNSIGNED[v[1]])))
+                elif v[0] == "raise":
+                    out.append((s, v))
+                else:
+                    out.append((s, ("opaque", "np.dtype(?)")))
+            return out
+        if fn == "range" and 1 <= len(node.args) <= 2 and not node.keywords:
+            a = [self.one(x, env, S) for x in node.args]
+            if all(v[0] == "int" for v in a):
+                return [(S, ("range", 0 if len(a) == 1 else a[0][1], a[-1][1]))]
+            fail(node, "range with non-constant bounds")
+        if fn in ("tuple", "list", "frozenset", "set", "sorted") and len(node.args) == 1 and not node.keywords:
+            v = self.one(node.args[0], env, S)
+            if v[0] == "tuple" and (fn != "sorted" or all(e[0] == "int" for e in v[1])):
+                return [(S, ("tuple", sorted(v[1]) if fn == "sorted" else v[1]))]
+            fail(node, "conversion the translator does not follow")
+        if isinstance(node.func, ast.Attribute) and node.func.attr in ("items", "keys", "values") and not node.args \
+                and not node.keywords:
+            v = self.one(node.func.value, env, S)
+            if v[0] == "dict":
+                if len({repr(k) for k, _ in v[1]}) != len(v[1]):
+                    fail(node, "duplicate keys")
+                return [(S, ("tuple", [("tuple", [k, w]) if node.func.attr == "items" else k if node.func.attr == "keys"
+                                       else w for k, w in v[1]]))]
+            fail(node, "method call the translator does not follow")
+        if fn == "zip" and len(node.args) == 2 and not node.keywords:
+            a, b = (self.one(x, env, S) for x in node.args)
+            if a[0] == "tuple" and b[0] == "tuple":
+                return [(S, ("tuple", [("tuple", [p, q]) for p, q in zip(a[1], b[1])]))]
+            fail(node, "zip of non-constant sequences")
+        if fn == "enumerate" and 1 <= len(node.args) <= 2 and all(k.arg == "start" for k in node.keywords):
+            a = self.one(node.args[0], env, S)
+            st = node.args[1] if len(node.args) == 2 else (node.keywords[0].value if node.keywords else None)
+            k0 = self.one(st, env, S) if st is not None else ("int", 0)
+            if a[0] == "tuple" and k0[0] == "int":
+                return [(S, ("tuple", [("tuple", [("int", k0[1] + i), e]) for i, e in enumerate(a[1])]))]
+            fail(node, "enumerate of a non-constant sequence")
+        if isinstance(node.func, ast.Name) and node.func.id in self.funcs and node.func.id not in env:
+            f = self.funcs[node.func.id]
+            if self.depth >= 4 or f.decorator_list and any(
+                    ast.unparse(d).split("(")[0].split(".")[-1] not in ("lru_cache", "cache") for d in f.decorator_list):
+                fail(node, "helper call too deep / decorated helper")
+            a = f.args
+            if a.vararg or a.kwarg or a.posonlyargs and node.keywords:
+                fail(node, "helper signature")
+            names = [x.arg for x in a.posonlyargs + a.args]
+            if len(node.args) > len(names):
+                fail(node, "too many arguments for helper")
+            bound = {n: x for n, x in zip(names, node.args)}
+            for k in node.keywords:
+                if k.arg in bound or k.arg not in names + [x.arg for x in a.kwonlyargs]:
+                    fail(node, "helper keyword")
+                bound[k.arg] = k.value
+            fenv = {n: self.one(x, env, S) for n, x in bound.items()}
+            for n, d in list(zip(reversed(names), reversed(a.defaults))) + \
+                    [(x.arg, d) for x, d in zip(a.kwonlyargs, a.kw_defaults) if d is not None]:
+                if n not in fenv:
+                    fenv[n] = self.one(d, {}, S)
+            if set(fenv) != set(names + [x.arg for x in a.kwonlyargs]):
+                fail(node, "helper called with missing arguments")
+            self.depth += 1
+            outs, fall, brk, cont = self.run(body_no_doc(f), [(S, fenv)])
+            self.depth -= 1
+            if brk or cont:
+                fail(f, "break/continue outside a loop")
+            return [(s, v) for s, v in outs] + [(s, ("none",)) for s, _ in fall]
+        return [(S, ("opaque", ast.unparse(node)[:60]))]
+
+    # ---- conditions: list of (set, bool); operands of comparisons cannot raise (integers and constants only)
+    def cond(self, node, env, S):
+        if isinstance(node, ast.BoolOp):
+            is_and = isinstance(node.op, ast.And)
+            live, done = S, []
+            for v in node.values:
+                nxt = []
+                for s, b in self.cond(v, env, live):
+                    if b == is_and:
+                        nxt += s
+                    else:
+                        done.append((s, b))
+                live = _norm(nxt)
+                if not live:
+                    break
+            if live:
+                done.append((live, is_and))
+            return self.merge(done)
+        if isinstance(node, ast.UnaryOp) and isinstance(node.op, ast.Not):
+            return [(s, not b) for s, b in self.cond(node.operand, env, S)]
+        if isinstance(node, ast.Compare):
+            T = S
+            left = self.one(node.left, env, S)
+            for op, rn in zip(node.ops, node.comparators):
+                right = self.one(rn, env, S)
+                T = _inter(T, self.cmp(node, left, op, right))
+                left = right
+            return self.merge([(T, True), (_diff(S, T), False)])
+        out = []
+        for s, v in self.ev(node, env, S):
+            if v[0] == "bool":
+                out.append((s, v[1]))
+            elif v[0] == "none":
+                out.append((s, False))
+            elif v[0] == "int":
+                out.append((s, v[1] != 0))
+            elif v[0] == "x":                                # truth value of the resolution: non-zero
+                z = _inter(s, [(-v[1], -v[1])])
+                out += [(z, False), (_diff(s, z), True)]
+            else:
+                fail(node, "condition the translator does not follow")
+        return self.merge(out)
+
+    @staticmethod
+    def merge(parts):
+        t = _norm([i for s, b in parts if b for i in s])
+        f = _norm([i for s, b in parts if not b for i in s])
+        return [(s, b) for s, b in ((t, True), (f, False)) if s]
+
+    def cmp(self, node, a, op, b):
+        """Set of resolutions for which `a op b` holds."""
+        def const(v):
+            return _FULL if v else []
+        if isinstance(op, (ast.In, ast.NotIn)):
+            if b[0] == "range":
+                T = [(b[1], b[2] - 1)]
+            elif b[0] == "tuple" and all(e[0] == "int" for e in b[1]):
+                T = _norm([(e[1], e[1]) for e in b[1]])
+            elif b[0] == "dict" and all(k[0] == "int" for k, _ in b[1]):
+                T = _norm([(k[1], k[1]) for k, _ in b[1]])
+            else:
+                fail(node, "membership test the translator does not follow")
+            if a[0] == "int":
+                T = const(bool(_inter(T, [(a[1], a[1])])))
+            elif a[0] == "x":
+                T = _norm([(lo - a[1], hi - a[1]) for lo, hi in T])
+            else:
+                fail(node, "membership test the translator does not follow")
+            return T if isinstance(op, ast.In) else _compl(T)
+        if isinstance(op, (ast.Is, ast.IsNot)) and "none" in (a[0], b[0]) and {a[0], b[0]} <= {"none", "x", "int"}:
+            same = a[0] == b[0]
+            return const(same == isinstance(op, ast.Is))
+        flip = {ast.Lt: ast.Gt, ast.LtE: ast.GtE, ast.Gt: ast.Lt, ast.GtE: ast.LtE, ast.Eq: ast.Eq, ast.NotEq: ast.NotEq}
+        if type(op) not in flip:
+            fail(node, "comparison operator")
+        if a[0] == "int" and b[0] == "x":
+            a, b, op = b, a, flip[type(op)]()
+        if a[0] == "int" and b[0] == "int":
+            import operator as O
+            f = {ast.Lt: O.lt, ast.LtE: O.le, ast.Gt: O.gt, ast.GtE: O.ge, ast.Eq: O.eq, ast.NotEq: O.ne}[type(op)]
+            return const(f(a[1], b[1]))
+        if a[0] == "x" and b[0] == "x":
+            d = a[1] - b[1]                                   # (x + a1) op (x + b1)
+            import operator as O
+            f = {ast.Lt: O.lt, ast.LtE: O.le, ast.Gt: O.gt, ast.GtE: O.ge, ast.Eq: O.eq, ast.NotEq: O.ne}[type(op)]
+            return const(f(d, 0))
+        if a[0] == "x" and b[0] == "int":
+            c = b[1] - a[1]
+            return {ast.Lt: [(-_INF, c - 1)], ast.LtE: [(-_INF, c)], ast.Gt: [(c + 1, _INF)], ast.GtE: [(c, _INF)],
+                    ast.Eq: [(c, c)], ast.NotEq: _compl([(c, c)])}[type(op)]
+        fail(node, "comparison the translator does not follow")
+
+    # ---- statements: states = [(set, env)]; returns (outcomes [(set, value)], fall, break, continue)
+    def run(self, stmts, states):
+        outs, brk, cont = [], [], []
+        states = [(s, e) for s, e in states if s]
+        for st in stmts:
+            if not states:
+                break
+            nxt = []
+            for S, env in states:
+                o, f, b, c = self.stmt(st, S, env)
+                outs += o
+                nxt += f
+                brk += b
+                cont += c
+            states = [(s, e) for s, e in nxt if s]
+        return [(s, v) for s, v in outs if s], states, [x for x in brk if x[0]], [x for x in cont if x[0]]
+
+    def bind(self, node, tgt, val, env):
+        env = dict(env)
+        if isinstance(tgt, ast.Name):
+            env[tgt.id] = val
+        elif isinstance(tgt, (ast.Tuple, ast.List)) and val[0] == "tuple" and len(val[1]) == len(tgt.elts):
+            for t, v in zip(tgt.elts, val[1]):
+                env = self.bind(node, t, v, env)
+        else:
+            fail(node, "assignment target the translator does not follow")
+        return env
+
+    def stmt(self, st, S, env):
+        if isinstance(st, ast.Pass):
+            return [], [(S, env)], [], []
+        if isinstance(st, ast.Expr):
+            v = st.value
+            if isinstance(v, ast.Constant):
+                return [], [(S, env)], [], []
+            if isinstance(v, ast.Call) and ast.unparse(v.func).split(".")[0] in _LOGGERS:
+                return [], [(S, env)], [], []                # logging / warnings: not an observable of the property
+            fail(st, "expression statement")
+        if isinstance(st, (ast.Assign, ast.AnnAssign)):
+            if isinstance(st, ast.AnnAssign):
+                if st.value is None:
+                    return [], [(S, env)], [], []
+                tgts = [st.target]
+            else:
+                tgts = st.targets
+            outs, fall = [], []
+            for s, v in self.ev(st.value, env, S):
+                if v[0] == "raise":
+                    outs.append((s, v))
+                    continue
+                e = env
+                for t in tgts:
+                    e = self.bind(st, t, v, e)
+                fall.append((s, e))
+            return outs, fall, [], []
+        if isinstance(st, ast.Return):
+            if st.value is None:
+                return [(S, ("none",))], [], [], []
+            return self.ev(st.value, env, S), [], [], []
+        if isinstance(st, ast.Raise):
+            return [(S, ("raise",))], [], [], []
+        if isinstance(st, ast.Break):
+            return [], [], [(S, env)], []
+        if isinstance(st, ast.Continue):
+            return [], [], [], [(S, env)]
+        if isinstance(st, ast.If):
+            outs, fall, brk, cont = [], [], [], []
+            for s, b in self.cond(st.test, env, S):
+                o, f, bk, c = self.run(st.body if b else st.orelse, [(s, env)])
+                outs += o
+                fall += f
+                brk += bk
+                cont += c
+            return outs, fall, brk, cont
+        if isinstance(st, ast.For):
+            it = self.one(st.iter, env, S)
+            if it[0] == "range" and it[2] - it[1] <= 256:
+                elems = [("int", k) for k in range(it[1], it[2])]
+            elif it[0] == "tuple":
+                elems = it[1]
+            elif it[0] == "dict":
+                elems = [k for k, _ in it[1]]
+            else:
+                fail(st, "loop over something that is not a constant sequence")
+            if len(elems) > 256:
+                fail(st, "loop too long to unroll")
+            outs, done, cur = [], [], [(S, env)]
+            for e in elems:
+                cur = [(s, self.bind(st, st.target, e, en)) for s, en in cur]
+                o, f, b, c = self.run(st.body, cur)
+                outs += o
+                done += b
+                cur = f + c
+                if not cur:
+                    break
+            if st.orelse and cur:
+                o, cur, b, c = self.run(st.orelse, cur)
+                outs += o
+                if b or c:
+                    fail(st, "break/continue in a loop's else")
+            return outs, cur + done, [], []
+        if isinstance(st, ast.Match):
+            subj = self.one(st.subject, env, S)
+            if subj[0] not in ("x", "int"):
+                fail(st, "match on something that is not the resolution")
+            outs, fall, brk, cont, rest = [], [], [], [], S
+            for case in st.cases:
+                T, e = self.pattern(st, case.pattern, subj, env)
+                live = _inter(rest, T)
+                if case.guard is not None:
+                    live = _norm([i for s, b in self.cond(case.guard, e, live) if b for i in s])
+                o, f, bk, c = self.run(case.body, [(live, e)])
+                outs += o
+                fall += f
+                brk += bk
+                cont += c
+                rest = _diff(rest, live)
+            return outs, fall + ([(rest, env)] if rest else []), brk, cont
+        if isinstance(st, ast.Try) and not st.finalbody and st.handlers and all(
+                h.body and isinstance(h.body[-1], ast.Raise) and not any(
+                    isinstance(n, (ast.Return, ast.Break, ast.Continue)) for b in h.body for n in ast.walk(b))
+                for h in st.handlers):
+            # every handler re-raises (whatever the class): an exception in the body still ends in an exception, so
+            # over {np.dtype(..), raises} the statement is its body followed by its else part
+            o1, f1, b1, c1 = self.run(st.body, [(S, env)])
+            o2, f2, b2, c2 = self.run(st.orelse, f1) if st.orelse else ([], f1, [], [])
+            return o1 + o2, f2, b1 + b2, c1 + c2
+        fail(st, "statement the translator does not follow")
+
+    def pattern(self, st, p, subj, env):
+        if isinstance(p, ast.MatchValue):
+            v = self.one(p.value, env, _FULL)
+            if v[0] != "int":
+                fail(st, "match pattern is not an integer literal")
+            return self.cmp(st, subj, ast.Eq(), v), env
+        if isinstance(p, ast.MatchOr):
+            T = []
+            for q in p.patterns:
+                t, _ = self.pattern(st, q, subj, env)
+                T = _norm(T + t)
+            return T, env
+        if isinstance(p, ast.MatchAs):
+            T, e = (_FULL, env) if p.pattern is None else self.pattern(st, p.pattern, subj, env)
+            if p.name:
+                e = dict(e, **{p.name: subj})
+            return T, e
+        fail(st, "match pattern the translator does not follow")
+
+
+def dtype_bands(tree) -> list[tuple[int, int, int]]:
+    fn = find_func(tree, "get_dtype")
+    a = fn.args
+    if len(a.args) != 1 or a.posonlyargs or a.vararg or a.kwarg or a.kwonlyargs:
+        fail(fn, "get_dtype signature")
+    if a.args[0].arg != "bit_resolution":
+        fail(fn, "get_dtype signature (callers pass bit_resolution by keyword)")
+    sym = _Sym(tree)
+    outs, fall, brk, cont = sym.run(body_no_doc(fn), [(_FULL, {a.args[0].arg: ("x", 0)})])
+    if brk or cont:
+        fail(fn, "break/continue outside a loop")
+    if fall:
+        fail(fn, f"get_dtype falls off its end for resolutions {fall[0][0][:2]}")
+    by_w = {}
+    for s, v in outs:
+        if v[0] == "raise":
+            continue
+        if v[0] != "dt":
+            fail(fn, f"get_dtype returns something that is not np.dtype(<unsigned numpy type>) for resolutions {s[:2]}: {v}")
+        by_w[v[1]] = _norm(by_w.get(v[1], []) + s)
+    rows = []
+    for w, s in by_w.items():
+        for lo, hi in s:
+            if lo == -_INF or hi == _INF:
+                fail(fn, f"get_dtype returns uint{w} on an unbounded set of resolutions ({lo}, {hi})")
+            rows.append((int(lo), int(hi), w))
+    return sorted(rows)
+
+
 def translate(repo: Path) -> str:
     tree = parse(repo, "pyxel/util/misc.py")
-    fn = find_func(tree, "get_dtype")
-    if [a.arg for a in fn.args.args] != ["bit_resolution"]:
-        fail(fn, "get_dtype signature")
-    body = body_no_doc(fn)
-    if len(body) != 1 or not isinstance(body[0], ast.If):
-        fail(fn, "get_dtype body must be one if/elif chain")
-    bands = []
-    node = body[0]
-    while True:
-        t = node.test
-        # lo <= bit_resolution <= hi
-        if not (isinstance(t, ast.Compare) and len(t.ops) == 2 and all(isinstance(o, ast.LtE) for o in t.ops)
-                and isinstance(t.comparators[0], ast.Name) and t.comparators[0].id == "bit_resolution"):
-            fail(t, "band test must be `lo <= bit_resolution <= hi`")
-        lo, hi = int_const(t.left), int_const(t.comparators[1])
-        if len(node.body) != 1 or not isinstance(node.body[0], ast.Return):
-            fail(node, "band body must be a single return")
-        r = node.body[0].value
-        # np.dtype(np.uintN)
-        if not (isinstance(r, ast.Call) and ast.unparse(r.func) == "np.dtype" and len(r.args) == 1 and not r.keywords):
-            fail(r, "band must return np.dtype(np.uintN)")
-        nm = ast.unparse(r.args[0])
-        table = {"np.uint8": 8, "np.uint16": 16, "np.uint32": 32, "np.uint64": 64}
-        if nm not in table:
-            fail(r, "band must return an unsigned numpy type")
-        bands.append((lo, hi, table[nm]))
-        if len(node.orelse) == 1 and isinstance(node.orelse[0], ast.If):
-            node = node.orelse[0]
-            continue
-        if len(node.orelse) == 1 and isinstance(node.orelse[0], ast.Raise):
-            break
-        fail(node, "chain must end with `else: raise ...`")
+    bands = dtype_bands(tree)
     rows = "; ".join(f"({lo}, {hi}, {w})" for lo, hi, w in bands)
     return (HEADER +
             "From Coq Require Import ZArith List String.\nFrom PyxelV Require Import Model.Adc Model.AdcHist.\n"
@@ -51,7 +546,8 @@ def translate(repo: Path) -> str:
 
 # ------------------------------------------------------------------------------------------ detector-level models
 # simple_adc / sar_adc / sar_adc_with_noise: which detector attribute feeds which argument of the converter.
-# Accepted statement shapes (anything else fails closed):
+# The body is first normalised (`_normalised`: helper inlining, alias substitution, guard forms, literal loops unrolled).
+# Accepted statement shapes after that (anything else fails closed):
 #   name [: T] = <expr>                      (binds a name to a source)
 #   a, b = detector.characteristics.adc_voltage_range        (`_` allowed)
 #   if data_type: <np.dtype(data_type) with guards> else: name = get_dtype(<bits>)      (simple_adc only)
@@ -71,6 +567,13 @@ def _resolve(node, env, det, params):
     if isinstance(node, ast.Name):
         return env.get(node.id, "FromOther")
     txt = ast.unparse(node)
+    # detector.characteristics.adc_voltage_range[0] / [1] / [-2] / [-1]
+    if isinstance(node, ast.Subscript) and ast.unparse(node.value) == f"{det}.characteristics.adc_voltage_range":
+        try:
+            k = int_const(node.slice)
+        except Exception:
+            return "FromOther"
+        return {0: "FromRangeLo", -2: "FromRangeLo", 1: "FromRangeHi", -1: "FromRangeHi"}.get(k, "FromOther")
     for k, v in DET_ATTRS.items():
         if txt == f"{det}.{k}":
             return v
@@ -98,8 +601,363 @@ def _call_args(call, sig):
     return out
 
 
-def _wrapper(tree, fname, apply_name, want):
+# ---- normalisation of a wrapper body before it is read (general rewrites, each behaviour-preserving):
+#   * calls of private module-level helper functions are inlined (parameters and locals renamed apart; guard clauses /
+#     early returns of the helper become nested if/else; `return e` becomes `target = e`)
+#   * single-assignment local aliases of the detector parameter, of an attribute chain rooted at it
+#     (`ch = detector.characteristics`, `geo = detector.geometry`), or of another parameter are substituted
+#   * `x = a if c else b` == `if c: x = a else: x = b`; `if a or b: raise` == `if a: raise` `if b: raise`;
+#     `not (a == b)` == `a != b`; `if not c: A else: B` == `if c: B else: A`; `a, b = x, y` == `a = x; b = y`
+#     (fresh names only); docstrings, `pass`, logging calls and bare annotations are dropped.
+# A write through an alias becomes a write to the detector chain it stands for, so it is still seen by `_touch`.
+
+def _ln(node):
+    return getattr(node, "lineno", 0)
+
+
+def _terminates(stmts):
+    if not stmts:
+        return False
+    last = stmts[-1]
+    if isinstance(last, (ast.Return, ast.Raise)):
+        return True
+    if isinstance(last, ast.If):
+        return _terminates(last.body) and _terminates(last.orelse)
+    return False
+
+
+def _tailify(stmts):
+    """guard clauses / early returns -> nested if/else (the statements after a terminating branch move into the other one)"""
+    out = []
+    for i, st in enumerate(stmts):
+        if isinstance(st, ast.If):
+            body, orelse, rest = _tailify(st.body), _tailify(st.orelse), stmts[i + 1:]
+            if rest and _terminates(body) and not _terminates(orelse):
+                return out + [ast.If(test=st.test, body=body, orelse=orelse + _tailify(rest))]
+            if rest and _terminates(orelse) and not _terminates(body):
+                return out + [ast.If(test=st.test, body=body + _tailify(rest), orelse=orelse)]
+            out.append(ast.If(test=st.test, body=body, orelse=orelse))
+        else:
+            out.append(st)
+    return out
+
+
+def _flatten(stmts):
+    """the canonical form the wrapper reader expects: `if c: <raises> else: rest` -> `if c: <raises>` followed by rest"""
+    out = []
+    for st in stmts:
+        if isinstance(st, ast.If):
+            body, orelse = _flatten(st.body), _flatten(st.orelse)
+            if orelse and _terminates(body):
+                out += [ast.If(test=st.test, body=body, orelse=[], lineno=_ln(st))] + orelse
+            elif body and orelse and _terminates(orelse):
+                out += [ast.If(test=_not(st.test), body=orelse, orelse=[], lineno=_ln(st))] + body
+            else:
+                out.append(ast.If(test=st.test, body=body, orelse=orelse, lineno=_ln(st)))
+        else:
+            out.append(st)
+    return out
+
+
+def _has_return(node):
+    return any(isinstance(n, ast.Return) for n in ast.walk(node))
+
+
+def _returns_to(stmts, target):
+    """tail `return e` -> `target = e` (None when this is not possible)"""
+    out = []
+    for i, st in enumerate(stmts):
+        last = i == len(stmts) - 1
+        if isinstance(st, ast.Return):
+            if not last:
+                return None
+            if target is None:
+                if st.value is not None and not (isinstance(st.value, ast.Constant) and st.value.value is None):
+                    return None
+            else:
+                out.append(ast.Assign(targets=[copy.deepcopy(target)], value=st.value or ast.Constant(value=None), lineno=_ln(st)))
+        elif isinstance(st, ast.If) and last:
+            b, o = _returns_to(st.body, target), _returns_to(st.orelse, target) if st.orelse else []
+            if b is None or o is None:
+                return None
+            if target is not None and not _terminates(st.orelse) and not (st.orelse and isinstance(o[-1], ast.Assign)):
+                o = o + [ast.Assign(targets=[copy.deepcopy(target)], value=ast.Constant(value=None), lineno=_ln(st))]
+            out.append(ast.If(test=st.test, body=b or [ast.Pass()], orelse=o))
+        elif _has_return(st):
+            return None
+        else:
+            out.append(st)
+    return out
+
+
+def _inline_call(call, target, funcs, prefix):
+    """statements equivalent to `target = f(...)` (or to the bare call when target is None); None = leave the call alone"""
+    f = funcs[call.func.id]
+    a = f.args
+    if f.decorator_list or a.vararg or a.kwarg or a.posonlyargs:
+        return None
+    if any(isinstance(n, (ast.FunctionDef, ast.AsyncFunctionDef, ast.Lambda, ast.ClassDef, ast.Global, ast.Nonlocal,
+                          ast.Yield, ast.YieldFrom, ast.Await)) for st in f.body for n in ast.walk(st)):
+        return None
+    if any(isinstance(x, ast.Starred) for x in call.args) or any(k.arg is None for k in call.keywords):
+        return None
+    names = [x.arg for x in a.args]
+    allp = names + [x.arg for x in a.kwonlyargs]
+    if len(call.args) > len(names):
+        return None
+    bound = dict(zip(names, call.args))
+    for k in call.keywords:
+        if k.arg in bound or k.arg not in allp:
+            return None
+        bound[k.arg] = k.value
+    for n, d in list(zip(reversed(names), reversed(a.defaults))) + \
+            [(x.arg, d) for x, d in zip(a.kwonlyargs, a.kw_defaults) if d is not None]:
+        bound.setdefault(n, d)
+    if set(bound) != set(allp):
+        return None
+    body = copy.deepcopy(body_no_doc(f))
+    local = set(allp) | {n.id for st in body for n in ast.walk(st) if isinstance(n, ast.Name) and isinstance(n.ctx, (ast.Store, ast.Del))}
+    local |= {n.name for st in body for n in ast.walk(st) if isinstance(n, ast.ExceptHandler) and n.name}
+    for st in body:
+        for n in ast.walk(st):
+            if isinstance(n, ast.Name) and n.id in local:
+                n.id = prefix + n.id
+            elif isinstance(n, ast.ExceptHandler) and n.name in local:
+                n.name = prefix + n.name
+    body = _returns_to(_tailify(body), target)
+    if body is None:
+        return None
+    if target is not None and not _terminates(body) and not (body and isinstance(body[-1], (ast.Assign, ast.If))):
+        body.append(ast.Assign(targets=[copy.deepcopy(target)], value=ast.Constant(value=None), lineno=_ln(call)))
+    pre = [ast.Assign(targets=[ast.Name(id=prefix + n, ctx=ast.Store())], value=bound[n], lineno=_ln(call)) for n in allp]
+    return pre + body
+
+
+def _not(t):
+    """condition equivalent to `not t` (single comparisons are flipped)"""
+    flip = {ast.Eq: ast.NotEq, ast.NotEq: ast.Eq, ast.Is: ast.IsNot, ast.IsNot: ast.Is, ast.In: ast.NotIn, ast.NotIn: ast.In}
+    if isinstance(t, ast.UnaryOp) and isinstance(t.op, ast.Not):
+        return t.operand
+    if isinstance(t, ast.Compare) and len(t.ops) == 1 and type(t.ops[0]) in flip:
+        return ast.Compare(left=t.left, ops=[flip[type(t.ops[0])]()], comparators=t.comparators)
+    return ast.UnaryOp(op=ast.Not(), operand=t)
+
+
+def _simple_arg(a):
+    return isinstance(a, ast.Constant) or _chain_root(a) is not None
+
+
+class _InlineExpr(ast.NodeTransformer):
+    """f(a, b) -> the expression f returns, for helpers whose whole body is `return <expression>` (arguments must be
+    names / attribute chains / constants, so evaluating them where the parameter stood changes nothing)"""
+
+    def __init__(self, funcs, keep):
+        self.funcs, self.keep, self.depth = funcs, keep, 0
+
+    def visit_Call(self, node):
+        self.generic_visit(node)
+        f = self.funcs.get(node.func.id) if isinstance(node.func, ast.Name) and node.func.id not in self.keep else None
+        if f is None or self.depth >= 3:
+            return node
+        body, a = body_no_doc(f), f.args
+        if len(body) != 1 or not isinstance(body[0], ast.Return) or body[0].value is None or f.decorator_list \
+                or a.vararg or a.kwarg or a.posonlyargs:
+            return node
+        expr = body[0].value
+        if any(isinstance(n, (ast.Lambda, ast.ListComp, ast.SetComp, ast.DictComp, ast.GeneratorExp, ast.NamedExpr,
+                              ast.Yield, ast.Await)) for n in ast.walk(expr)):
+            return node
+        names = [x.arg for x in a.args]
+        allp = names + [x.arg for x in a.kwonlyargs]
+        if len(node.args) > len(names) or any(isinstance(x, ast.Starred) for x in node.args) or any(k.arg is None for k in node.keywords):
+            return node
+        bound = dict(zip(names, node.args))
+        for k in node.keywords:
+            if k.arg in bound or k.arg not in allp:
+                return node
+            bound[k.arg] = k.value
+        for n, d in list(zip(reversed(names), reversed(a.defaults))) + \
+                [(x.arg, d) for x, d in zip(a.kwonlyargs, a.kw_defaults) if d is not None]:
+            bound.setdefault(n, d)
+        if set(bound) != set(allp) or not all(_simple_arg(v) for v in bound.values()):
+            return node
+
+        class Sub(ast.NodeTransformer):
+            def visit_Name(self, n):
+                return copy.deepcopy(bound[n.id]) if n.id in bound and isinstance(n.ctx, ast.Load) else n
+
+        self.depth += 1
+        res = self.visit(Sub().visit(copy.deepcopy(expr)))
+        self.depth -= 1
+        return res
+
+
+def _unroll(st):
+    """`for a, b in ((x1, y1), (x2, y2)): body` -> body[x1, y1]; body[x2, y2]  (literal sequence of names / chains / constants,
+    loop variables not assigned in the body, no break / continue)"""
+    tg = [st.target] if isinstance(st.target, ast.Name) else list(st.target.elts) if isinstance(st.target, ast.Tuple) else None
+    if tg is None or not all(isinstance(t, ast.Name) for t in tg):
+        return None
+    names = [t.id for t in tg]
+    for b in st.body:
+        for n in ast.walk(b):
+            if isinstance(n, (ast.Break, ast.Continue, ast.Lambda, ast.FunctionDef)) or \
+                    (isinstance(n, ast.Name) and n.id in names and not isinstance(n.ctx, ast.Load)):
+                return None
+    out = []
+    for e in st.iter.elts:
+        vals = [e] if isinstance(st.target, ast.Name) else list(e.elts) if isinstance(e, (ast.Tuple, ast.List)) else None
+        if vals is None or len(vals) != len(names) or not all(_simple_arg(v) for v in vals):
+            return None
+        m = dict(zip(names, vals))
+
+        class Sub(ast.NodeTransformer):
+            def visit_Name(self, n):
+                return copy.deepcopy(m[n.id]) if n.id in m else n
+
+        out += [Sub().visit(copy.deepcopy(b)) for b in st.body]
+    return out
+
+
+def _simplify(stmts, funcs, keep, counter):
+    out = []
+    for st in stmts:
+        st = _InlineExpr(funcs, keep).visit(st)
+        if isinstance(st, ast.Pass) or (isinstance(st, ast.Expr) and isinstance(st.value, ast.Constant)):
+            continue
+        if isinstance(st, ast.AnnAssign) and st.value is None:
+            continue
+        if isinstance(st, ast.Expr) and isinstance(st.value, ast.Call) and ast.unparse(st.value.func).split(".")[0] in _LOGGERS:
+            continue
+        if isinstance(st, ast.AnnAssign) and isinstance(st.target, ast.Name):
+            st = ast.Assign(targets=[st.target], value=st.value, lineno=_ln(st))
+        call = (st.value if isinstance(st, (ast.Assign, ast.Expr)) else None)
+        if isinstance(call, ast.Call) and isinstance(call.func, ast.Name) and call.func.id in funcs and call.func.id not in keep \
+                and (isinstance(st, ast.Expr) or len(st.targets) == 1) and counter[0] < 12:
+            counter[0] += 1
+            inl = _inline_call(call, None if isinstance(st, ast.Expr) else st.targets[0], funcs, f"_{call.func.id}{counter[0]}__")
+            if inl is not None:
+                out += _simplify(inl, funcs, keep | {call.func.id}, counter)
+                continue
+        if isinstance(st, ast.Assign) and len(st.targets) == 1 and isinstance(st.targets[0], ast.Tuple) \
+                and isinstance(st.value, ast.Tuple) and len(st.value.elts) == len(st.targets[0].elts) \
+                and all(isinstance(t, ast.Name) for t in st.targets[0].elts):
+            tn = {t.id for t in st.targets[0].elts}
+            if not any(isinstance(n, ast.Name) and n.id in tn for e in st.value.elts for n in ast.walk(e)) and len(tn) == len(st.value.elts):
+                out += [ast.Assign(targets=[t], value=v, lineno=_ln(st)) for t, v in zip(st.targets[0].elts, st.value.elts)]
+                continue
+        if isinstance(st, ast.For) and not st.orelse and isinstance(st.iter, (ast.Tuple, ast.List)) and len(st.iter.elts) <= 8:
+            un = _unroll(st)
+            if un is not None:
+                out += _simplify(un, funcs, keep, counter)
+                continue
+        if isinstance(st, ast.Assign) and len(st.targets) == 1 and isinstance(st.value, ast.IfExp):
+            st = ast.If(test=st.value.test, body=[ast.Assign(targets=st.targets, value=st.value.body, lineno=_ln(st))],
+                        orelse=[ast.Assign(targets=copy.deepcopy(st.targets), value=st.value.orelse, lineno=_ln(st))],
+                        lineno=_ln(st))
+        if isinstance(st, ast.If):
+            t, body, orelse = st.test, _simplify(st.body, funcs, keep, counter), _simplify(st.orelse, funcs, keep, counter)
+            if isinstance(t, ast.UnaryOp) and isinstance(t.op, ast.Not) and not (
+                    isinstance(t.operand, ast.Compare) and len(t.operand.ops) == 1):
+                if orelse:
+                    t, body, orelse = t.operand, orelse, body
+            elif isinstance(t, ast.UnaryOp) and isinstance(t.op, ast.Not):
+                t = _not(t.operand)
+            if isinstance(t, ast.Compare) and len(t.ops) == 1 and isinstance(t.ops[0], ast.Is) and body and orelse \
+                    and isinstance(t.comparators[0], ast.Constant) and t.comparators[0].value is None:
+                t, body, orelse = _not(t), orelse, body
+            if isinstance(t, ast.BoolOp) and isinstance(t.op, ast.Or) and not orelse and _terminates(body):
+                out += _simplify([ast.If(test=v, body=copy.deepcopy(body), orelse=[], lineno=_ln(st)) for v in t.values],
+                                 funcs, keep, counter)
+                continue
+            if not body:
+                if not orelse:
+                    continue
+                t, body, orelse = _not(t), orelse, []
+            out.append(ast.If(test=t, body=body, orelse=orelse, lineno=_ln(st)))
+            continue
+        out.append(st)
+    return out
+
+
+def _chain_root(node):
+    while isinstance(node, ast.Attribute):
+        node = node.value
+    return node if isinstance(node, ast.Name) else None
+
+
+def _expand_aliases(body, pars):
+    stores = {}
+    for st in body:
+        for n in ast.walk(st):
+            if isinstance(n, ast.Name) and isinstance(n.ctx, (ast.Store, ast.Del)):
+                stores[n.id] = stores.get(n.id, 0) + 1
+            elif isinstance(n, ast.ExceptHandler) and n.name:
+                stores[n.name] = stores.get(n.name, 0) + 2
+    alias, out = {}, []
+
+    class Sub(ast.NodeTransformer):
+        def visit_Name(self, n):
+            if isinstance(n.ctx, ast.Load) and n.id in alias:
+                return copy.deepcopy(alias[n.id])
+            return n
+
+    for st in body:
+        st = Sub().visit(st)
+        if isinstance(st, ast.Assign) and len(st.targets) == 1 and isinstance(st.targets[0], ast.Name):
+            nm, root = st.targets[0].id, _chain_root(st.value)
+            if stores.get(nm) == 1 and nm not in pars and root is not None and root.id in pars and stores.get(root.id, 0) == 0:
+                alias[nm] = st.value
+                continue
+        out.append(st)
+    return out
+
+
+def _normalised(tree, fname, keep):
     fn = find_func(tree, fname)
+    funcs = {n.name: n for n in tree.body if isinstance(n, ast.FunctionDef) and n.name != fname}
+    pars = [a.arg for a in fn.args.args + fn.args.kwonlyargs]
+    body = _simplify(copy.deepcopy(body_no_doc(fn)), funcs, set(keep), [0])
+    body = _expand_aliases(_flatten(body), pars)
+    while body and isinstance(body[-1], ast.Return) and (body[-1].value is None or (
+            isinstance(body[-1].value, ast.Constant) and body[-1].value.value is None)):
+        body = body[:-1]                                   # a bare `return` at the very end
+    new = ast.FunctionDef(name=fn.name, args=fn.args, body=body or [ast.Pass()], decorator_list=fn.decorator_list,
+                          returns=fn.returns, lineno=fn.lineno, col_offset=0)
+    return ast.fix_missing_locations(new)
+
+
+def _given(t, params):
+    """(parameter, polarity) when the test only asks whether an optional parameter was given"""
+    if isinstance(t, ast.Name) and t.id in params:
+        return t.id, True
+    if isinstance(t, ast.Compare) and len(t.ops) == 1 and isinstance(t.ops[0], (ast.Is, ast.IsNot)) \
+            and isinstance(t.left, ast.Name) and t.left.id in params \
+            and isinstance(t.comparators[0], ast.Constant) and t.comparators[0].value is None:
+        return t.left.id, isinstance(t.ops[0], ast.IsNot)
+    if isinstance(t, ast.UnaryOp) and isinstance(t.op, ast.Not):
+        g = _given(t.operand, params)
+        return None if g is None else (g[0], not g[1])
+    if isinstance(t, ast.BoolOp):
+        gs = [_given(v, params) for v in t.values]
+        want = isinstance(t.op, ast.And)                      # `p is not None and p` / `p is None or not p`
+        if all(g is not None and g[0] == gs[0][0] and g[1] == want for g in gs):
+            return gs[0][0], want
+    return None
+
+
+def _assigns_in_order(stmts):
+    for st in stmts:
+        if isinstance(st, (ast.Assign, ast.AnnAssign)):
+            yield st
+        for fld in ("body", "handlers", "orelse", "finalbody"):
+            sub = getattr(st, fld, None)
+            if isinstance(sub, list):
+                yield from _assigns_in_order(sub)
+
+
+def _wrapper(tree, fname, apply_name, want):
+    fn = _normalised(tree, fname, {apply_name})
     ap = find_func(tree, apply_name)
     sig = [a.arg for a in ap.args.args]
     if sorted(sig) != sorted(want):
@@ -128,13 +986,13 @@ def _wrapper(tree, fname, apply_name, want):
                     and isinstance(st.body[0].exc, ast.Call) and ast.unparse(st.body[0].exc.func) == "ValueError"):
                 guards.add(t.left.args[0].id)
                 continue
-            # data_type override
-            is_dt = ((isinstance(t, ast.Name) and t.id in params) or
-                     (isinstance(t, ast.Compare) and len(t.ops) == 1 and isinstance(t.ops[0], ast.IsNot)
-                      and isinstance(t.left, ast.Name) and t.left.id in params
-                      and isinstance(t.comparators[0], ast.Constant) and t.comparators[0].value is None))
-            if is_dt and len(st.orelse) == 1:
-                dtp = t.id if isinstance(t, ast.Name) else t.left.id
+            # data_type override: `if data_type:` / `if data_type is not None:` or the negated forms with swapped branches
+            given = _given(t, params)
+            if given is not None and not given[1]:
+                st = ast.If(test=t, body=st.orelse, orelse=st.body, lineno=_ln(st))
+            is_dt = given is not None
+            if is_dt and len(st.orelse) == 1 and st.body:
+                dtp = given[0]
                 e = st.orelse[0]
                 ev = e.value if isinstance(e, (ast.Assign, ast.AnnAssign)) else None
                 et = (e.targets[0] if isinstance(e, ast.Assign) and len(e.targets) == 1 else
@@ -143,19 +1001,24 @@ def _wrapper(tree, fname, apply_name, want):
                         and len(ev.args) + len(ev.keywords) == 1):
                     fail(e, "else branch must be `name = get_dtype(bits)`")
                 barg = ev.args[0] if ev.args else ev.keywords[0].value
-                # the if-branch must bind the same name from np.dtype(data_type) and may only raise besides
-                binds = [n for n in ast.walk(ast.Module(body=st.body, type_ignores=[]))
-                         if isinstance(n, (ast.Assign, ast.AnnAssign))]
-                ok = False
-                for n in binds:
+                # the if-branch must bind the same name from np.dtype(data_type) (directly or through names that hold
+                # nothing but np.dtype(data_type)) and may only raise besides
+                dt_names = set()
+                for n in _assigns_in_order(st.body):
                     nt = n.targets[0] if isinstance(n, ast.Assign) and len(n.targets) == 1 else getattr(n, "target", None)
-                    if not (isinstance(nt, ast.Name) and nt.id == et.id):
-                        fail(n, "override branch binds another name")
+                    if not isinstance(nt, ast.Name) or nt.id in params or env.get(nt.id) not in (None, "DTYPE"):
+                        fail(n, "override branch binds something else than a local dtype name")
                     v = n.value
-                    if not (isinstance(v, ast.Call) and ast.unparse(v.func) in ("np.dtype", "numpy.dtype") and len(v.args) == 1
+                    if isinstance(v, ast.Name) and v.id in dt_names:
+                        dt_names.add(nt.id)
+                    elif (isinstance(v, ast.Call) and ast.unparse(v.func) in ("np.dtype", "numpy.dtype") and len(v.args) == 1
                             and isinstance(v.args[0], ast.Name) and v.args[0].id == dtp and not v.keywords):
+                        dt_names.add(nt.id)
+                    elif isinstance(n, ast.AnnAssign) and v is None:
+                        continue
+                    else:
                         fail(n, "override branch must bind np.dtype(data_type)")
-                    ok = True
+                ok = et.id in dt_names
                 for n in ast.walk(ast.Module(body=st.body, type_ignores=[])):
                     if isinstance(n, (ast.Return, ast.Delete, ast.AugAssign, ast.For, ast.While, ast.With, ast.Global)):
                         fail(n, "unexpected statement in the override branch")
@@ -172,8 +1035,12 @@ def _wrapper(tree, fname, apply_name, want):
             if not (len(tgt.elts) == 2 and all(isinstance(e, ast.Name) for e in tgt.elts)
                     and ast.unparse(val) == f"{det}.characteristics.adc_voltage_range"):
                 fail(st, "tuple assignment must unpack adc_voltage_range into two names")
+            call_of.pop(tgt.elts[0].id, None)
+            call_of.pop(tgt.elts[1].id, None)
             env[tgt.elts[0].id], env[tgt.elts[1].id] = "FromRangeLo", "FromRangeHi"
         elif isinstance(tgt, ast.Name):
+            prev_call = call_of.get(val.id) if isinstance(val, ast.Name) else None
+            call_of.pop(tgt.id, None)                      # a rebound name no longer stands for the converter's result
             if isinstance(val, ast.Call) and ast.unparse(val.func) == apply_name:
                 call_of[tgt.id] = val
                 env[tgt.id] = "CALL"
@@ -182,6 +1049,12 @@ def _wrapper(tree, fname, apply_name, want):
                 barg = val.args[0] if val.args else val.keywords[0].value
                 env[tgt.id] = "DTYPE"
                 dtype_rule[tgt.id] = f"DtGetDtypeOf {_resolve(barg, env, det, params)}"
+            elif prev_call is not None:
+                call_of[tgt.id] = prev_call                # another name for the converter's result
+                env[tgt.id] = "CALL"
+            elif isinstance(val, ast.Name) and env.get(val.id) == "DTYPE":
+                env[tgt.id] = "DTYPE"
+                dtype_rule[tgt.id] = dtype_rule[val.id]
             else:
                 env[tgt.id] = _resolve(val, env, det, params)
         elif isinstance(tgt, ast.Attribute) and ast.unparse(tgt) == f"{det}.image.array":
@@ -215,10 +1088,10 @@ def _wrapper(tree, fname, apply_name, want):
 PARTS = {"characteristics": "PCharacteristics", "signal": "PSignal", "geometry": "PGeometry", "image": "PImage"}
 
 
-def _touch(tree, fname):
+def _touch(tree, fname, apply_name):
     """Which parts of the detector object the body of a detector-level model reads and writes (first attribute after
     the detector parameter; the bare object used in any other way counts as the whole detector)."""
-    fn = find_func(tree, fname)
+    fn = _normalised(tree, fname, {apply_name})
     det = fn.args.args[0].arg
     parent = {}
     for n in ast.walk(fn):
@@ -292,10 +1165,85 @@ def _module_state(tree, roots, label):
             for m in ast.walk(t):
                 if isinstance(m, ast.Name):
                     bound.setdefault(m.id, []).append(getattr(n, "value", None) if not isinstance(n, ast.AugAssign) else None)
-    def harmless(v):
-        return _is_literal_const(v) or (isinstance(v, ast.Call) and ast.unparse(v.func) in ("logging.getLogger", "getLogger"))
+    tparent = {}
+    for n in ast.walk(tree):
+        for ch in ast.iter_child_nodes(n):
+            tparent[ch] = n
 
-    consts = {k for k, vs in bound.items() if len(vs) == 1 and vs[0] is not None and harmless(vs[0])}
+    def lit(v):
+        """immutable constant: literals, tuples of them, attributes of imported modules (np.uint8), frozenset/tuple(...) of them"""
+        if isinstance(v, ast.Tuple):
+            return all(lit(e) for e in v.elts)
+        if isinstance(v, ast.Attribute):
+            r = v
+            while isinstance(r, ast.Attribute):
+                r = r.value
+            return isinstance(r, ast.Name) and r.id in imported
+        if isinstance(v, ast.Call) and ast.unparse(v.func) in ("frozenset", "tuple", "range", "MappingProxyType", "types.MappingProxyType") \
+                and not v.keywords and all(lit(a) or container(a) for a in v.args):
+            return True
+        return _is_literal_const(v)
+
+    def container(v):
+        if isinstance(v, (ast.List, ast.Set)):
+            return all(lit(e) for e in v.elts)
+        if isinstance(v, ast.Dict):
+            return all(k is not None and lit(k) for k in v.keys) and all(lit(e) or container(e) for e in v.values)
+        return False
+
+    def read_only(name):
+        """every use of a module-level list / dict / set in the module only reads it"""
+        for n in ast.walk(tree):
+            if not (isinstance(n, ast.Name) and n.id == name):
+                continue
+            p = tparent.get(n)
+            if isinstance(n.ctx, ast.Store) and isinstance(p, (ast.Assign, ast.AnnAssign)) and p in tree.body:
+                continue
+            if not isinstance(n.ctx, ast.Load):
+                return False
+            if isinstance(p, ast.Subscript) and p.value is n and isinstance(p.ctx, ast.Load):
+                continue
+            if isinstance(p, ast.Attribute) and p.attr in ("get", "items", "keys", "values", "index", "count") \
+                    and isinstance(tparent.get(p), ast.Call) and tparent[p].func is p:
+                continue
+            if isinstance(p, ast.Compare) and n in p.comparators and all(isinstance(o, (ast.In, ast.NotIn)) for o in p.ops):
+                continue
+            if isinstance(p, (ast.For, ast.comprehension)) and p.iter is n:
+                continue
+            if isinstance(p, ast.Call) and n in p.args and ast.unparse(p.func) in (
+                    "len", "sorted", "tuple", "list", "enumerate", "zip", "dict", "set", "frozenset", "min", "max", "reversed"):
+                continue
+            return False
+        return True
+
+    classes = {n.name for n in tree.body if isinstance(n, ast.ClassDef)}
+
+    def class_read_only(name):
+        """a module-level class (enum, named tuple, ...) that the module only instantiates / reads attributes of"""
+        for n in ast.walk(tree):
+            if isinstance(n, ast.Name) and n.id == name:
+                if not isinstance(n.ctx, ast.Load):
+                    return False
+                top = n
+                while isinstance(tparent.get(top), (ast.Attribute, ast.Subscript)) and tparent[top].value is top:
+                    top = tparent[top]
+                if top is not n and not isinstance(top.ctx, ast.Load):
+                    return False
+                if isinstance(tparent.get(top), ast.AugAssign) and tparent[top].target is top:
+                    return False
+        cls = next(c for c in tree.body if isinstance(c, ast.ClassDef) and c.name == name)
+        for st in cls.body:                                   # class attributes must be immutable constants
+            if isinstance(st, (ast.Assign, ast.AnnAssign)) and getattr(st, "value", None) is not None and not lit(st.value) \
+                    and not (isinstance(st.value, ast.Call) and ast.unparse(st.value.func) in ("auto", "enum.auto")):
+                return False
+        return True
+
+    def harmless(k, v):
+        return (lit(v) or (isinstance(v, ast.Call) and ast.unparse(v.func) in ("logging.getLogger", "getLogger"))
+                or (container(v) and read_only(k)))
+
+    consts = {k for k, vs in bound.items() if len(vs) == 1 and vs[0] is not None and harmless(k, vs[0])}
+    consts -= {g for n in ast.walk(tree) if isinstance(n, ast.Global) for g in n.names}     # rebound from inside a function
     flagged, seen, todo = [], set(), [r for r in roots]
     while todo:
         f = todo.pop(0)
@@ -332,10 +1280,12 @@ def _module_state(tree, roots, label):
                 continue
             if n.id in mod_funcs:
                 p = parent.get(n)
-                if isinstance(p, ast.Call) and p.func is n:
-                    todo.append(n.id)
+                if isinstance(p, ast.Call) and (p.func is n or n in p.args or any(k.value is n for k in p.keywords)):
+                    todo.append(n.id)          # called here, or handed to map / np.vectorize / partial: followed like a call
                 else:
                     flagged.append(f"{label}:{f}:{n.id} used as an object")
+                continue
+            if n.id in classes and class_read_only(n.id):
                 continue
             if hasattr(builtins, n.id) or n.id in imported or n.id in consts:
                 continue
@@ -380,9 +1330,9 @@ def wrappers(repo: Path) -> str:
     c, g = _wrapper(parse(repo, base + "sar_adc_with_noise.py"), "sar_adc_with_noise", "apply_sar_adc_with_noise",
                     ["signal_2d", "num_rows", "num_cols", "strengths", "noises", "max_volt", "adc_bits"])
     touches = (
-        f"Definition src_simple_touch : touch := {_touch(parse(repo, base + 'simple_adc.py'), 'simple_adc')}.\n"
-        f"Definition src_sar_touch : touch := {_touch(parse(repo, base + 'sar_adc.py'), 'sar_adc')}.\n"
-        f"Definition src_sar0_touch : touch := {_touch(parse(repo, base + 'sar_adc_with_noise.py'), 'sar_adc_with_noise')}.\n")
+        f"Definition src_simple_touch : touch := {_touch(parse(repo, base + 'simple_adc.py'), 'simple_adc', 'apply_simple_adc')}.\n"
+        f"Definition src_sar_touch : touch := {_touch(parse(repo, base + 'sar_adc.py'), 'sar_adc', 'apply_sar_adc')}.\n"
+        f"Definition src_sar0_touch : touch := {_touch(parse(repo, base + 'sar_adc_with_noise.py'), 'sar_adc_with_noise', 'apply_sar_adc_with_noise')}.\n")
     return touches + (
         f"Definition src_simple_wiring : simple_wiring := {{| sw_signal := {_s(a['signal'])}; sw_bits := {_s(a['bit_resolution'])}; "
         f"sw_vmin := {_s(a['voltage_min'])}; sw_vmax := {_s(a['voltage_max'])}; sw_dtype := {_dt(a['dtype'])}; "
